@@ -534,7 +534,13 @@ func (d *resolveUndoDecoder) readEntry() (*ResolveUndoEntry, error) {
 		}
 	}
 
-	for s := range e.Stages {
+	// Object ids follow in stage order (1, 2, 3) for the stages whose mode
+	// is non-zero; a map range would visit them in random order.
+	for s := AncestorMode; s <= TheirMode; s++ {
+		if _, ok := e.Stages[s]; !ok {
+			continue
+		}
+
 		var h plumbing.Hash
 		h.ResetBySize(d.h.Size())
 		if _, err := h.ReadFrom(d.r); err != nil {
